@@ -33,6 +33,8 @@ type Obl struct {
 }
 
 type Enc struct {
+	symAt map[string]int // symbol -> number of lines when it was introduced
+	hints      bool // emit array-store instantiation hints (contract clause "hints")
 	P          *Program
 	decls      []string
 	declared   map[string]string
@@ -71,7 +73,7 @@ type WatchTerm struct {
 }
 
 func newEnc(P *Program) *Enc {
-	e := &Enc{P: P, declared: map[string]string{}, notes: map[string]bool{}, used: map[string]bool{}, inlined: map[string]bool{}, maxDepth: 14, names: map[string]int{}, refSerial: map[string]int{}, funDefs: map[string]*funInfo{}, lemmaSeen: map[string]int{}, usedLemmas: map[string]bool{}, lemmaLimit: -1}
+	e := &Enc{P: P, declared: map[string]string{}, notes: map[string]bool{}, used: map[string]bool{}, inlined: map[string]bool{}, maxDepth: 14, names: map[string]int{}, refSerial: map[string]int{}, symAt: map[string]int{}, funDefs: map[string]*funInfo{}, lemmaSeen: map[string]int{}, usedLemmas: map[string]bool{}, lemmaLimit: -1}
 	e.decls = append(e.decls, "(declare-fun gstr.len (Int) Int)", "(declare-fun gstr.sub (Int Int Int) Int)", "(declare-fun gstr.cat (Int Int) Int)")
 	e.declare("alloc@0", "Int")
 	e.lines = append(e.lines, "(assert (>= |alloc@0| 0))")
@@ -117,7 +119,9 @@ func (e *Enc) uniq(hint string) string {
 }
 
 func (e *Enc) fresh(hint, sort string) string {
-	return e.declare(e.uniq(hint), sort)
+	s := e.declare(e.uniq(hint), sort)
+	e.symAt[s] = len(e.lines)
+	return s
 }
 
 // define introduces a name for a term (keeps queries small through sharing).
@@ -128,6 +132,7 @@ func (e *Enc) define(hint, sort, term string) string {
 	n := e.uniq(hint)
 	e.declared[n] = sort
 	e.lines = append(e.lines, fmt.Sprintf("(define-fun %s () %s %s)", q(n), sort, term))
+	e.symAt[q(n)] = len(e.lines)
 	return q(n)
 }
 
@@ -181,6 +186,7 @@ func (e *Enc) hset(h *Heap, name, sort, term string, base string) {
 	e.declare(name+"@0", sort)
 	h.m[name] = e.define(name, sort, term)
 	h.mark(name, e.refSerial[base])
+	h.markBase(name, base)
 }
 
 func (e *Enc) newRef(h *Heap, hint string) string {
@@ -188,6 +194,7 @@ func (e *Enc) newRef(h *Heap, hint string) string {
 	e.declared[n] = "Int"
 	e.lines = append(e.lines, fmt.Sprintf("(define-fun %s () Int %s)", q(n), sx("+", h.alloc, "1")))
 	r := q(n)
+	e.symAt[r] = len(e.lines)
 	h.alloc = r
 	e.serial++
 	e.refSerial[r] = e.serial
@@ -293,7 +300,9 @@ func (e *Enc) storeAt(h *Heap, a *Addr, v Val) {
 		case aField:
 			n := fieldArr(a.Root, a.Path, c)
 			s := arrSort('F', c.Sort)
-			e.hset(h, n, s, store(e.harr(h, n, s), a.Base, vs[i]), a.Base)
+			old := e.harr(h, n, s)
+			e.hset(h, n, s, store(old, a.Base, vs[i]), a.Base)
+			e.storeHint(h.m[n], old, a.Base)
 		case aCell:
 			n := cellArr(a.Root, a.Path, c)
 			s := arrSort('C', c.Sort)
@@ -303,6 +312,7 @@ func (e *Enc) storeAt(h *Heap, a *Addr, v Val) {
 			s := arrSort('E', c.Sort)
 			H := e.harr(h, n, s)
 			e.hset(h, n, s, store(H, a.Base, store(sel(H, a.Base), a.Idx, vs[i])), a.Base)
+			e.storeHint(h.m[n], H, a.Base)
 		}
 	}
 }
@@ -759,6 +769,11 @@ func (fr *Frame) merge(b *ssa.BasicBlock, ins []edgeInfo) BState {
 		for k, v := range i.heap.dirty {
 			h.mark(k, v)
 		}
+		for k, s := range i.heap.bases {
+			for b := range s {
+				h.markBase(k, b)
+			}
+		}
 		if i.heap.lock != h.lock {
 			h.lock = ""
 		}
@@ -995,4 +1010,13 @@ func (fr *Frame) lockAddr(a *Addr, write bool, pos token.Pos, st *BState) {
 			fr.lockAccess(elemArr(a.Root, a.Path, c), write, pos, st)
 		}
 	}
+}
+
+// storeHint: instantiation hint (a consequence of the array theory): what was known about the cells of the
+// old heap array carries over to the new one. Only emitted when hints are enabled for the function.
+func (e *Enc) storeHint(nw, old, at string) {
+	if !e.hints || nw == old || !strings.HasPrefix(nw, "|") {
+		return
+	}
+	e.lines = append(e.lines, fmt.Sprintf("(assert (forall ((r Int)) (! (=> (not (= r %s)) (= (select %s r) (select %s r))) :pattern ((select %s r)))))", at, nw, old, old))
 }
